@@ -1,10 +1,6 @@
 package main
 
-import (
-	"fmt"
-
-	"golang.org/x/tools/go/ssa"
-)
+import "golang.org/x/tools/go/ssa"
 
 func init() {
 	register("C22", []string{".", "./vfs/atomicfs", "./internal/manifest", "./record"}, runC22)
@@ -103,9 +99,7 @@ func runC22(c *Ctx) {
 	// C22.E2: the torn-tail classification in recoverVersion compares errors by identity, so the
 	// record reader and the version-edit decoder must hand the reader's sentinels on unwrapped.
 	if fn := c.Fn("C22.E2", "p.recoverVersion"); fn != nil {
-		if n := c.ErrIdentity("C22.E2", fn, "rec.IsInvalidRecord"); n < 4 {
-			c.Unresolved("C22.E2", fmt.Sprintf("only %d functions found below recoverVersion's identity-compared errors (record.Reader.Next and VersionEdit.Decode with its helpers expected)", n))
-		}
+		c.ErrIdentityIn("C22.E2", fn, 4, "rec.IsInvalidRecord")
 	}
 	// C22.W1: only the owners install versions, move the marker, or set the manifest bookkeeping.
 	c.Who("C22.W1", FuncRef("p.(*versionSet).append"), "versionSet.append only from owners",
